@@ -29,11 +29,29 @@ func (ex *Exec) SMTText(o *Obligation, wantModel bool) string {
 	var sb strings.Builder
 	sb.WriteString("(set-option :produce-models true)\n(set-logic ALL)\n")
 	fmt.Fprintf(&sb, "; obligation: %s\n; kind: %s\n; source: %s\n", o.Name, o.Kind, strings.ReplaceAll(o.Src, "\n", " "))
-	sb.WriteString(ex.Prelude.Text)
 	if o.Kind == "lemma" || strings.HasPrefix(o.Func, "lemma:") {
 		// lemmas are closed goals over the spec functions: keep the context minimal (nonlinear proofs are
-		// sensitive to irrelevant declarations)
-		for _, d := range o.Decls {
+		// sensitive to irrelevant declarations): only the declarations and spec functions the lemma mentions
+		var body strings.Builder
+		for _, p := range o.PC {
+			body.WriteString(p.S)
+			body.WriteString("\n")
+		}
+		body.WriteString(o.Goal.S)
+		body.WriteString("\n")
+		keep := make([]bool, len(o.Decls))
+		for i := len(o.Decls) - 1; i >= 0; i-- {
+			if sx, err := parseSexprs(o.Decls[i]); err == nil && len(sx) == 1 && len(sx[0].list) > 1 && mentionsSym(body.String(), sx[0].list[1].atom) {
+				keep[i] = true
+				body.WriteString(o.Decls[i])
+				body.WriteString("\n")
+			}
+		}
+		sb.WriteString(ex.Prelude.Slice(body.String()))
+		for i, d := range o.Decls {
+			if !keep[i] {
+				continue
+			}
 			sb.WriteString(d)
 			sb.WriteString("\n")
 		}
@@ -46,6 +64,7 @@ func (ex *Exec) SMTText(o *Obligation, wantModel bool) string {
 		}
 		return sb.String()
 	}
+	sb.WriteString(ex.Prelude.Text)
 	sb.WriteString(ex.Sorts.Decls())
 	for _, n := range ex.funOrder {
 		sb.WriteString(ex.funDecls[n])
@@ -72,6 +91,33 @@ func (ex *Exec) SMTText(o *Obligation, wantModel bool) string {
 			continue
 		}
 		fmt.Fprintf(&sb, "(assert %s)\n", p.S)
+	}
+	if !o.Cover {
+		// witness constants for the universally quantified goal, hypotheses instantiated at them (skolem.go)
+		sk := skolemizeGoal(o.Goal.S, "g")
+		if len(sk.Decls) > 0 {
+			for _, d := range sk.Decls {
+				sb.WriteString(d)
+				sb.WriteString("\n")
+			}
+			for _, a := range sk.Asserts {
+				fmt.Fprintf(&sb, "(assert %s)\n", a)
+			}
+			seen := map[string]bool{}
+			for _, p := range o.PC {
+				for _, inst := range instancesOf(p.S, sk.Consts) {
+					if !seen[inst] {
+						seen[inst] = true
+						fmt.Fprintf(&sb, "(assert %s) ; instance at goal witness\n", inst)
+					}
+				}
+			}
+			fmt.Fprintf(&sb, "(assert (not %s))\n(check-sat)\n", sk.Rest)
+			if wantModel {
+				sb.WriteString("(get-model)\n")
+			}
+			return sb.String()
+		}
 	}
 	fmt.Fprintf(&sb, "(assert (not %s))\n(check-sat)\n", o.Goal.S)
 	if wantModel {
